@@ -189,6 +189,9 @@ func (fs *faultFS) changedList() string {
 }
 
 func errClass(err error, isNotEnough func(error) bool) string {
+	if err != nil && os.Getenv("VH_ERR") != "" {
+		fmt.Fprintln(os.Stderr, "error text:", err.Error()) // debugging aid: the classes below are what is compared
+	}
 	switch {
 	case err == nil:
 		return "ok"
